@@ -115,7 +115,26 @@ func doMatchIn(expression *grammar.MatchExpression, value reflect.Value) (bool, 
 
 	switch kind := value.Kind(); kind {
 	case reflect.Map:
-		found := value.MapIndex(reflect.ValueOf(matchValue))
+		// The literal has to be read in the map's key type: MapIndex panics
+		// when handed a string for a map keyed by anything else.
+		keyType := value.Type().Key()
+		matchValue, err = getMatchExprValue(expression, keyType.Kind())
+		if err != nil {
+			return false, fmt.Errorf("error getting match value in expression: %w", err)
+		}
+		key := reflect.ValueOf(matchValue)
+		if !key.Type().AssignableTo(keyType) {
+			if !key.Type().ConvertibleTo(keyType) {
+				return false, fmt.Errorf("Cannot perform in/contains operations on maps with keys of type %s for selector: %q", keyType, expression.Selector)
+			}
+			converted := key.Convert(keyType)
+			if converted.Convert(key.Type()).Interface() != key.Interface() {
+				// not representable in the key type, so it cannot be a key
+				return false, nil
+			}
+			key = converted
+		}
+		found := value.MapIndex(key)
 		return found.IsValid(), nil
 
 	case reflect.Slice, reflect.Array:
